@@ -1,5 +1,6 @@
 import PhyVerif.Driver.Rat
 import PhyVerif.Model.C08
+import PhyVerif.Model.C08b
 import PhyVerif.Spec.C08
 namespace PhyVerif.Driver
 open Lean PhyVerif PhyVerif.C08
@@ -22,7 +23,9 @@ def runC08 (op : String) (j : Json) : R Json := do
     let cs ← getNats j "cs"
     pure (Json.mkObj [("means", jList (fun c =>
       let r := clusterMean W chans st sc c
-      Json.mkObj [("channels", jNats r.1), ("mean", jRatMat r.2)]) cs)])
+      Json.mkObj [("channels", jNats r.1), ("mean", jRatMat r.2),
+                  ("from_spikes", jNat (clusterTemplate st sc c)),
+                  ("dominant", jNat (argmaxNat (templateCounts st sc W.length c)))]) cs)])
   | _ => .error s!"C08: unknown op {op}"
 
 end PhyVerif.Driver
